@@ -42,12 +42,14 @@ class sym_int(metaclass=_IntMeta):
 
 class _FloatMeta(type):
     def __instancecheck__(cls, o):
-        return isinstance(o, (_b.float, SymReal))
+        return isinstance(o, (_b.float, SymReal, core.SymFP))
 
     def __subclasscheck__(cls, s):
         return issubclass(s, (_b.float, SymReal))
 
     def __call__(cls, x=0.0):
+        if isinstance(x, core.SymFP):
+            return x
         if isinstance(x, SymBool):
             x = x._i()
         if isinstance(x, SymNum):
@@ -148,7 +150,7 @@ def sym_isinstance(o, cls):
     for c in flat:
         if c is _b.int and _b.isinstance(o, SymInt):
             return True
-        if c is _b.float and _b.isinstance(o, SymReal):
+        if c is _b.float and _b.isinstance(o, (SymReal, core.SymFP)):
             return True
         if c is _b.bool and _b.isinstance(o, SymBool):
             return True
